@@ -1,12 +1,13 @@
 (* Dispatcher used by both evaluation routes (vm_compute in cases.v, extracted runner). *)
 From Coq Require Import String List Bool.
-From HV Require Import Base.Sexp Model.DepKeys Model.Merge.
+From HV Require Import Base.Sexp Model.DepKeys Model.Merge Model.Validate.
 Import ListNotations.
 Open Scope string_scope.
 
 Definition run_kind (kind : string) (args : list sexp) : option sexp :=
   if String.eqb kind "schemakey" then run_schemakey args
   else if String.eqb kind "merge" then run_merge args
+  else if String.eqb kind "validate" then run_validate args
   else None.
 
 (* (case <id> (<kind> args...) <observed>)  ->  (<id> ok) | (<id> diff <model-output>) | (<id> badinput) *)
